@@ -420,7 +420,11 @@ func check(c Case) error {
 			case "nexus":
 				doc = docs.Nexus(c.Trees, c.NexusOpts)
 			case "phyloxml":
-				doc = docs.PhyloXML(c.Trees)
+				if c.Translate {
+					doc = docs.PhyloXMLTaxonomy(c.Trees)
+				} else {
+					doc = docs.PhyloXML(c.Trees)
+				}
 			case "nextstrain":
 				doc = docs.Nextstrain(c.Trees[0], c.Translate)
 			}
